@@ -175,6 +175,17 @@ CHECKS = {
         "delays on the step grid; time constants fixed per trainer; the 'randomly for larger populations' clause replaced by exhaustive tiny "
         "populations; tolerance 1e-5",
     ),
+    "C18": (
+        "model_checking", "DESIGN.md §3 C18",
+        "exhaustive pre/post history enumeration (as batch) with enumerated per-synapse delay schedules against a reference that keeps the "
+        "true last spike times; dedicated, kernel-based and unadjusted implementations run side by side (cross-implementation oracle)",
+        "DelayAdjustedSTDP/STDPD/MSTDP/MSTDPD and DelayAdjustedKernelSTDP/STDPD x four sign modes x dt {1,.5}: all 4^T histories of a 1x1 "
+        "cell (T=4 quick, 5 thorough) for every delay in {0,dt/2,dt,2dt}, constant or changing between steps, and all short histories of "
+        "2x2 dense / direct / lateral / conv cells; after every step the accumulated change equals the t_delta formula (causal branch iff "
+        "t_delta>=0, nothing while either side is silent), parts are non-negative, the kernel rule with the shipped exponential kernels "
+        "equals the dedicated rule part by part, zero delays equal KernelSTDP, and with update() applied the parameter follows the formula.",
+        "scalar reward signals in the histories-as-batch runs; delays from a 4-value alphabet; tolerance 1e-5",
+    ),
 }
 
 PENDING_REASON = "check not built yet in this session (claimed in DESIGN.md; will move to checks when its exploration exists)"
